@@ -1,6 +1,7 @@
 mod common;
 mod lexmc;
 mod codemc;
+mod libmc;
 mod workers;
 mod run;
 mod hostobj;
@@ -31,6 +32,7 @@ fn main() {
         let mode = argv.first().cloned().unwrap_or_default();
         let code = match mode.as_str() {
             "code-run" => workers::worker_loop(&mut |req| codemc::worker_run(req)),
+            "lib-call" => workers::worker_loop(&mut |req| libmc::worker_call(req)),
             _ => 2,
         };
         std::process::exit(code);
@@ -39,6 +41,7 @@ fn main() {
     let code = match engine.as_str() {
         "lexmc" => lexmc::run(&args),
         "codemc" => codemc::run(&args),
+        "libmc" => libmc::run(&args),
         "progmc-core" => progmc::run_profile(
             &args,
             run::RunCfg::default(),
